@@ -33,6 +33,7 @@ YEAR = datetime.timedelta(days=365)
 WINDOWS = {"ok": (NOW - DAY, NOW + 10 * YEAR), "expired": (NOW - 3 * YEAR, NOW - YEAR),
            "future": (NOW + 5 * YEAR, NOW + 10 * YEAR)}
 
+W3 = "w.c09.example"        # a second expected name, with three labels (wildcard patterns need two dots)
 EXPECT = "localhost"          # the name every verifying side expects (tls.peer_names / host part of the address)
 
 keys, certs = {}, {}
@@ -134,6 +135,10 @@ def main(out):
     make("l_exp_x", EXPECT, issuer="rootX", san=L, window="expired")
     make("l_exp_name_none", "foo", issuer="rootA", san=["bar"], window="expired")
     make("l_rev_name_none", "foo", issuer="rootA", san=["bar"])
+    # a three-label expected name (W3) and wildcard patterns that would cover it: xcm.h disables wildcard matching
+    make("l_name_w3", "foo", issuer="rootA", san=["bar", W3])
+    make("l_name_wild", "foo", issuer="rootA", san=["bar", "*." + W3.split(".", 1)[1]])
+    make("l_name_wcn", "*." + W3.split(".", 1)[1], issuer="rootA", san=None)
 
     files = {}          # file name -> list of cert ids (leaf first)
     for cid in certs:
